@@ -94,11 +94,39 @@ ExhN == atoi(IOEnv.EXHN)
 ExhD == atoi(IOEnv.EXHD)
 Certify ==
   IF ExhN = 0 THEN {}
-  ELSE LET rec == {Cases[i].g : i \in {j \in 1..Len(Cases) : Cases[j].plain /\ Cardinality(DOMAIN Cases[j].g) = ExhN}}
+  ELSE LET rec == {Cases[i].g : i \in {j \in 1..Len(Cases) : "lvl" \notin DOMAIN Cases[j] /\ Cases[j].plain /\ Cardinality(DOMAIN Cases[j].g) = ExhN}}
        IN IF rec = QDomain(ExhN, ExhD) THEN {} ELSE {"MACHINERY-domain-not-exhaustive"}
 
+(***************************************************************************)
+(* The same two subset queries asked of the SUB-GRAPH of a region inside a  *)
+(* restructured hierarchy (case with field "lvl"): H is the whole hierarchy,*)
+(* the graph queried is level lvl.  A subset nobody of that level jumps into*)
+(* is headed by the head of the level, and it is entered from wherever the  *)
+(* enclosing region is entered - looked up level by level towards the root. *)
+(***************************************************************************)
+LevelH(H, l) == {n \in DOMAIN H : H[n].up = l}
+FwdH(b) == Without(b.jt, SeqSet(b.be))
+HeadsH(H, l) == {h \in LevelH(H, l) : \A u \in LevelH(H, l) : h \notin SeqSet(FwdH(H[u]))}
+RECURSIVE EntriesUp(_, _, _, _)
+EntriesUp(H, root, r, fuel) ==
+  IF r = root \/ r \notin DOMAIN H \/ fuel = 0 THEN {}
+  ELSE LET P == {o \in LevelH(H, H[r].up) \ {r} : r \in SeqSet(H[o].jt)} IN
+       IF P # {} THEN P ELSE EntriesUp(H, root, H[r].up, fuel - 1)
+HierVerdict(c) ==
+  LET H == c.H l == c.lvl S == SeqSet(c.s)
+      hd == UNION {S \cap SeqSet(H[o].jt) : o \in LevelH(H, l) \ S}
+      en == {o \in LevelH(H, l) \ S : S \cap SeqSet(H[o].jt) # {}}
+      okHE == IF hd # {} THEN c.heexc = "" /\ SeqSet(c.h) = hd /\ SeqSet(c.e) = en /\ NoDupSeq(c.h) /\ NoDupSeq(c.e)
+              ELSE IF Cardinality(HeadsH(H, l)) = 1
+                   THEN c.heexc = "" /\ SeqSet(c.h) = HeadsH(H, l) /\ SeqSet(c.e) = EntriesUp(H, c.root, l, Cardinality(DOMAIN H) + 1) /\ NoDupSeq(c.e)
+                   ELSE c.heexc = "AssertionError"
+      exiting == {n \in S : FwdH(H[n]) = <<>> \/ \E t \in SeqSet(FwdH(H[n])) : t \notin S}
+      exits == UNION {SeqSet(FwdH(H[n])) \ S : n \in S}
+      okEE == SeqSet(c.x) = exiting /\ SeqSet(c.t) = exits /\ NoDupSeq(c.x) /\ NoDupSeq(c.t)
+  IN (IF okHE THEN {} ELSE {"find_headers_and_entries(sub-graph)"}) \cup (IF okEE THEN {} ELSE {"find_exiting_and_exits(sub-graph)"})
+
 Init == /\ tid \in 0..Len(Cases)
-        /\ bad = IF tid = 0 THEN Certify ELSE Verdict(Cases[tid])
+        /\ bad = IF tid = 0 THEN Certify ELSE IF "lvl" \in DOMAIN Cases[tid] THEN HierVerdict(Cases[tid]) ELSE Verdict(Cases[tid])
 Next == UNCHANGED <<tid, bad>>
 Holds == bad = {}
 =============================================================================
